@@ -8,4 +8,5 @@ CONSTANTS
   FixD12 = FALSE
   FixD17 = TRUE
   FixD18 = TRUE
+  FixD20 = TRUE
 INVARIANT C06_AllExitedAfterJoin
